@@ -13,6 +13,7 @@ from __future__ import annotations
 
 import importlib
 import json
+import time as _time
 
 from .. import msgs
 from ..hdriver import SUBJ_KEY, HState, _emitter, _parked
@@ -503,8 +504,9 @@ def run_one(unit):
         sr.close()
 
 
-def explore(scn: dict, bound: int, jobs: int, seed: int = 0, max_exec: int | None = None):
-    """Iterative deviation bounding.  Returns dict(executions, choice_points, outcomes, failures, ...)."""
+def explore(scn: dict, bound: int, jobs: int, seed: int = 0, max_exec: int | None = None, deadline: float | None = None):
+    """Iterative deviation bounding.  Returns dict(executions, choice_points, outcomes, failures, ...).
+    deadline (time.time() value): a wave with two or more deviations is not started after it (reported as a cap)."""
     _cfg(tuple(scn["cfg_ref"]))  # templates in the parent
     wave = [{}]
     executions = 0
@@ -518,6 +520,9 @@ def explore(scn: dict, bound: int, jobs: int, seed: int = 0, max_exec: int | Non
         units = seeded_order([(scn, p) for p in wave], seed)
         if max_exec is not None and executions + len(units) > max_exec:
             capped = f"bound {d}: {len(units)} executions would exceed cap {max_exec}"
+            break
+        if deadline is not None and d >= 2 and _time.time() > deadline:
+            capped = f"bound {d}: not started, the check's wall-clock budget was used up"
             break
         nxt = []
         for prefix, npoints, sig, fails, st in pmap(run_one, units, jobs, chunksize=4):
